@@ -2,6 +2,7 @@
 From Coq Require Import List ZArith Reals Lra Bool.
 Import ListNotations.
 Require Import PGM.Base.Num PGM.Model.Select PGM.Model.Factor PGM.Model.Region PGM.Proofs.SelectP PGM.Proofs.RegionP.
+Require Import PGM.Base.Alg PGM.Base.Sums PGM.Model.BP PGM.Proofs.BPrunP PGM.Proofs.BPlinkP.
 Open Scope R_scope.
 
 (* every pseudo-marginal both oracles return is belief_of total (accumulated log-belief): whatever the messages (any sweep count,
@@ -15,7 +16,52 @@ Print Assumptions C16_normalised_sums_to_total.
 Theorem C16_normalised_positive total b w : In w (normalised total b) -> 0 < w.
 Proof. exact (normalised_pos total b w). Qed.
 Print Assumptions C16_normalised_positive.
-(* PARTIAL (observed per run against the brute-force marginals, not proved): exactness of generalized BP on clique sets with the
-   running-intersection property (potentials on the maximal cliques) and of loopy BP on tree factor graphs after enough sweeps.
+(* EXACT ON TREES ONCE RUN FOR ENOUGH SWEEPS - the sum-product recursion behind loopy propagation.
+   On any tree of cliques passing the junction-tree conditions of C01 (in particular the bipartite tree whose nodes are the factors
+   and the variables of a tree-structured factor graph: a variable node has scope [v] and potential 1), SYNCHRONOUS message passing -
+   every round recomputes every message from the previous round, m'(i->j) = sum_{C_i \ C_j} psi_i * prod_{k <> j} m(k->i) - started from
+   ARBITRARY messages yields, after as many rounds as the tree is high, exactly the true messages; the beliefs psi_c * prod_k m(k->c)
+   normalised to the total are then the brute-force marginals of the product distribution.  Any zero-sum-free semifield (zeros allowed). *)
+Close Scope R_scope.
+Section C16_flooding.
+Variable S : SF.
+Variable shape : nat -> nat.
+Variable D : list nat.
+Variable ncl : nat.
+Variable scope : nat -> list nat.
+Variable nbrs : nat -> list nat.
+Variable psi : nat -> tbl S.
+Hypothesis nbrs_nodup : forall c, NoDup (nbrs c).
+Hypothesis nbrs_sym : forall i j, In j (nbrs i) -> In i (nbrs j).
+Hypothesis nbrs_lt : forall i j, In j (nbrs i) -> j < ncl.
+Hypothesis psi_dep : forall c, dep_on D (psi c).
+Hypothesis psi_wf : forall c a, ~ In a (scope c) -> @indep S a (psi c).
+Hypothesis shape_pos : forall a, 0 < shape a.
+Hypothesis D_nodup : NoDup D.
+Hypothesis scope_nodup : forall c, c < ncl -> NoDup (scope c).
+Hypothesis scope_sub : forall c, c < ncl -> incl (scope c) D.
+Variable sch : list (nat * nat).                  (* any valid complete schedule: only used to name the subtrees tr i j *)
+Hypothesis sch_valid : valid_sched nbrs [] sch.
+Hypothesis sch_complete : forall c k, In k (nbrs c) -> In (k, c) sch.
+Hypothesis roots_ok : forall c, c < ncl -> rootokb D ncl scope nbrs sch c = true.
+
+Theorem C16_flooding_reaches_the_true_messages n i j m0 x : In j (nbrs i) -> height (tr nbrs sch i j) <= n ->
+  Nat.iter n (flood S shape scope nbrs psi) m0 i j x = Mtrue S shape scope nbrs psi sch i j x.
+Proof. intros Hj Hh. exact (flood_reaches_true_messages S shape scope nbrs psi nbrs_sym sch sch_valid sch_complete n i j Hj Hh m0 x). Qed.
+
+Theorem C16_flooding_exact_once_run_for_enough_rounds n m0 total c0 c x :
+  (forall i j, In j (nbrs i) -> height (tr nbrs sch i j) <= n) -> c0 < ncl -> c < ncl -> valid shape x ->
+  mul S (flood_belief S shape scope nbrs psi n m0 c x)
+        (div S total (@sum_vars S shape (scope c0) (flood_belief S shape scope nbrs psi n m0 c0) base0))
+  = @brute S shape D ncl psi total (scope c) x.
+Proof. exact (flood_exact S shape D ncl scope nbrs psi nbrs_nodup nbrs_sym nbrs_lt psi_dep psi_wf shape_pos D_nodup scope_nodup scope_sub sch sch_valid sch_complete roots_ok n m0 total c0 c x). Qed.
+End C16_flooding.
+Print Assumptions C16_flooding_reaches_the_true_messages.
+Print Assumptions C16_flooding_exact_once_run_for_enough_rounds.
+
+(* PARTIAL (observed per run against the brute-force marginals, not proved): that the code's loopy propagation - the same recursion in
+   log space, with the messages normalised, computed by division (sum of all incoming minus the one going back) and in two half-sweeps
+   (factor -> variable, then variable -> factor) - and generalized BP on clique sets with the running-intersection property (potentials
+   on the maximal cliques) reach these marginals after enough sweeps; the float models of both sweeps are compared with the code.
    Known finding: generalized BP ignores the potentials of descendant regions in beliefs and message numerators, so it is inexact
    as soon as a nested (non-maximal) region carries a potential. *)
